@@ -30,14 +30,14 @@ type dvVisit struct {
 }
 
 type dvCase struct {
-	A, B        *spec.BatchSpec
-	MmapA       bool     `json:"mmapA"`
-	MmapB       bool     `json:"mmapB"`
-	ChunkMode   uint32   `json:"chunkMode"`
-	DVChunk     uint32   `json:"dvChunk"` // LegacyChunkMode for writer and reader
-	Fields      []string `json:"fields"`  // field list handed to VisitDocValues
-	FreshState  bool     `json:"freshState"`
-	Script      []dvVisit
+	A, B       *spec.BatchSpec
+	MmapA      bool     `json:"mmapA"`
+	MmapB      bool     `json:"mmapB"`
+	ChunkMode  uint32   `json:"chunkMode"`
+	DVChunk    uint32   `json:"dvChunk"` // LegacyChunkMode for writer and reader
+	Fields     []string `json:"fields"`  // field list handed to VisitDocValues
+	FreshState bool     `json:"freshState"`
+	Script     []dvVisit
 }
 
 var dvChunkPalette = []uint32{1024, 1, 2, 3, 5, 16}
